@@ -182,7 +182,7 @@ CHECKS["C04"] = {
     "level": "exploration",
     "rule": ("Optionally an earlier unary call has completed on the connection and had its context cancelled at once (with the goroutine watching that context possibly late). One streaming RPC is created, then up to five client goroutines (two senders, a receiver, a terminal call Close/CloseSend, plus late operations) are advanced by up to 30 director "
              "choices drawn from an alphabet weighted towards grants (so that several operations are in flight), optionally with 1..4 of 13 stream/manager scheduling points held; then the RPC's context "
-             "is cancelled and the transport is FROZEN (no accept, no delivery; point releases only; with soft cancel and known finding F13 excluded, either client bytes are still accepted - never delivered - or, when no call is held at a point, nothing is accepted and no later calls are issued: the calls in flight must return all the same); optionally a second caller issues a unary call at that moment and has its own context cancelled while it waits. Oracle at quiescence: every operation of the RPC has returned; receives blocked at cancel time satisfy "
+             "is cancelled - or ends the way an expired deadline does (context.DeadlineExceeded, ended by the harness, no timer) - and the transport is FROZEN (no accept, no delivery; point releases only; with soft cancel and known finding F13 excluded, either client bytes are still accepted - never delivered - or, when no call is held at a point, nothing is accepted and no later calls are issued: the calls in flight must return all the same); optionally a second caller issues a unary call at that moment and has its own context cancelled while it waits. Oracle at quiescence: every operation of the RPC has returned; receives blocked at cancel time satisfy "
              "errors.Is(err, context.Canceled) and, in the default mode, so do sends parked in the transport (only when the cancel is the sole termination cause); nil is never returned by a blocked op; "
              "operations issued afterwards fail at once; once the transport moves again the peer handler ends with its stream context done and the connection is closed or a probe RPC succeeds. "
              "Non-trivial: >= 2 operations in flight at cancel time with a write parked in the transport, a goroutine held at a point, or a terminal call in flight. Distinct by action trace + programs. "
